@@ -26,6 +26,14 @@ def isFeasible (P : LP) (ints : List Nat) (eps : Rat) (x : Vec) : Bool :=
   ints.all (fun j => !decide (roundDist (vget x j) > eps)) &&
   allTo P.m (fun i => !decide (P.rowDot x i > vget P.b i + eps))
 
+/-- which clause of `_is_feasible` rejects `x` (reporting only): 0 none, 1 `x[j] < -eps`,
+2 integrality, 3 a row -/
+def feasClause (P : LP) (ints : List Nat) (eps : Rat) (x : Vec) : Nat :=
+  if !allTo P.n (fun j => !decide (vget x j < -eps)) then 1
+  else if !ints.all (fun j => !decide (roundDist (vget x j) > eps)) then 2
+  else if !allTo P.m (fun i => !decide (P.rowDot x i > vget P.b i + eps)) then 3
+  else 0
+
 /-! ### Fixing the integer variables by rows -/
 
 def negV (v : List Rat) : List Rat := v.map fun t => -t
